@@ -1099,6 +1099,8 @@ var listClassCalls = map[string]callSpec{
 	"ListLike.AppendValues":  {kind: "opt", tmpl: "listAppendValues %1 %r fuel", sets: []string{"%r"}},
 }
 
+var arrayClassCalls = map[string]callSpec{}
+
 var rankerParams = "{σ : Type} (ranker : σ → α → α → Rank × σ)"
 
 var loopTargets = []*ltarget{
@@ -1226,6 +1228,10 @@ var loopTargets = []*ltarget{
 		params: "", args: "", calls: listClassCalls, slices: "List α"},
 	{file: "LoopsList.lean", pkg: "collection", recv: "listClass_", name: "Concatenate", lean: "listConcatenate",
 		params: "", args: "", calls: listClassCalls, slices: "List α"},
+	{file: "LoopsArray.lean", pkg: "collection", recv: "arrayClass_", name: "Make", lean: "arrayClassMake",
+		params: "", args: "", state: []string{"mem"}, calls: arrayClassCalls, slices: "Slice", resTy: "Slice"},
+	{file: "LoopsArray.lean", pkg: "collection", recv: "arrayClass_", name: "MakeFromArray", lean: "arrayClassMakeFromArray",
+		params: "", args: "", state: []string{"mem"}, calls: arrayClassCalls, slices: "Slice", resTy: "Slice"},
 	// C09: the sorter on a memory of arrays
 	{file: "LoopsSorter.lean", pkg: "agent", recv: "sorter_", name: "mergeArrays", lean: "mergeArrays",
 		params: rankerParams, args: "ranker", state: []string{"mem", "w"},
